@@ -127,10 +127,13 @@ def np_case(A, thr):
     """Run the real routine on one matrix; returns (violates, signature, detail)."""
     from ad_afqmc import pyscf_interface as pi
 
-    with warnings.catch_warnings():
-        warnings.simplefilter("ignore")
-        L = np.asarray(pi.modified_cholesky(np.array(A, dtype=float), thr))
     n = A.shape[0]
+    try:
+        with warnings.catch_warnings():
+            warnings.simplefilter("ignore")
+            L = np.asarray(pi.modified_cholesky(np.array(A, dtype=float), thr))
+    except Exception as e:  # a routine that refuses a valid PSD input violates the property
+        return True, "pyscf_interface.modified_cholesky:raises", dict(exception=repr(e)[:300], matrix=np.asarray(A, dtype=float), threshold=thr)
     if L.ndim != 2 or L.shape[1] != n:
         return True, "pyscf_interface.modified_cholesky:bad-shape", dict(shape=list(L.shape))
     rec = L.T @ L
@@ -163,12 +166,11 @@ def job_np(cfg):
             for thr in THRESHOLDS:
                 bad, sig, det = np_case(A, thr)
                 res.add(states=1, transitions=1, evaluations=1, traces=1)
+                res.guard("np_rank%d_of_%d" % (rk, n))
                 if bad:
                     res.violation(sig, dict(part="np", n=n, index=idx, scaling=isc, threshold=thr), det)
-                else:
-                    res.guard("np_rank%d_of_%d" % (rk, n))
-                    if det["nvec"] == n:
-                        res.guard("np_returned_full_size")
+                elif det["nvec"] == n:
+                    res.guard("np_returned_full_size")
             if isc == 0:
                 res.nontrivial(("np", n, idx))
         if idx in (lo, lo + 1) and M.any():
@@ -179,6 +181,7 @@ def job_np(cfg):
 
 # ----------------------------------------------------------------------------- part 2: JAX routine
 _JAXFUN = {}
+_SPY = {}
 
 
 def _jax_funs(n, r):
@@ -189,8 +192,10 @@ def _jax_funs(n, r):
         import jax.numpy as jnp
         from ad_afqmc import linalg_utils as lu
 
+        modchol = _SPY.get("orig", lu.modified_cholesky)  # never the spy of part 4 (workers are reused)
+
         def recon(A):
-            L = lu.modified_cholesky(A, n, r)
+            L = modchol(A, n, r)
             return L.T @ L
 
         prim = jax.jit(jax.vmap(recon))
@@ -260,12 +265,11 @@ def jax_group(n, r, mats, scal, deriv_labels, res, case_base):
         sc = elem_scale(A)
         err = np.abs(rec[k] - A)
         ok = np.all(np.isfinite(rec[k])) and np.all(err <= EXACT_TOL * sc + 1e-300)
+        res.guard("jax_exact_rank%d_of_%d" % (r, n))
         if not ok:
             res.violation("linalg_utils.modified_cholesky:not-exact-at-n_chol=rank",
                           dict(case_base, n=n, rank=r, index=meta[k][0], scaling=meta[k][1], what="exact"),
                           dict(matrix=A, reconstructed=rec[k], max_err=float(np.nanmax(err))))
-        else:
-            res.guard("jax_exact_rank%d_of_%d" % (r, n))
     # derivative: every symmetric basis tangent (congruence-scaled, still a basis), h-ladder
     At, Tt, info = [], [], []
     for k in range(len(As)):
@@ -298,15 +302,14 @@ def jax_group(n, r, mats, scal, deriv_labels, res, case_base):
         e2 = np.abs(jv[i] - fds[h2][j]) / DD
         rich = (4 * fds[h2][j] - fds[h1][j]) / 3.0
         er = np.abs(jv[i] - rich) / DD
+        res.guard("jvp_compared_" + why)
         if not np.all(er <= FD_TOL):
             res.violation("linalg_utils.modified_cholesky:jvp!=central-difference",
                           dict(case_base, n=n, rank=r, index=meta[k][0], scaling=meta[k][1], what="jvp", tangent=list(pq)),
                           dict(matrix=As[k], tangent=Tt[i], jvp=jv[i], fd_h=[h1, h2], fd=[fds[h1][j], fds[h2][j]],
                                err_h1=float(e1.max()), err_h2=float(e2.max()), err_richardson=float(er.max())))
-        else:
-            res.guard("jvp_compared_" + why)
-            if e2.max() < 1e-10:
-                res.guard("jvp_fd_exact_low_degree")
+        elif e2.max() < 1e-10:
+            res.guard("jvp_fd_exact_low_degree")
     for i, t in enumerate(info):
         k, pq, okfd, why = t
         if not np.all(np.isfinite(jv[i])):
@@ -396,7 +399,11 @@ def mol_case(name, scale, thr):
     mol = build_mol(name, scale)
     nao = mol.nao_nr()
     eri = mol.intor("int2e").reshape(nao * nao, nao * nao)
-    L = np.asarray(pi.chunked_cholesky(mol, max_error=thr))
+    shells = [(int(mol.bas_angular(i)), int(mol.bas_nctr(i))) for i in range(mol.nbas)]
+    try:
+        L = np.asarray(pi.chunked_cholesky(mol, max_error=thr))
+    except Exception as e:
+        return "raises", dict(molecule=name, bond_scale=scale, threshold=thr, nao=nao, n_vectors=0, shells=shells, exception=repr(e)[:300])
     rec = L.T @ L
     err = np.abs(eri - rec)
     tol = thr + ROUND * elem_scale(eri)
@@ -404,8 +411,8 @@ def mol_case(name, scale, thr):
     worst = np.unravel_index(np.argmax(err), err.shape)
     det = dict(molecule=name, bond_scale=scale, threshold=thr, nao=nao, n_vectors=int(L.shape[0]),
                max_err=float(err.max()), worst_element=[int(x) for x in worst], eri_max=float(np.abs(eri).max()),
-               shells=[(int(mol.bas_angular(i)), int(mol.bas_nctr(i))) for i in range(mol.nbas)])
-    return bad, det
+               shells=shells)
+    return ("reconstruction-error>threshold" if bad else ""), det
 
 
 def job_mol(cfg):
@@ -416,15 +423,14 @@ def job_mol(cfg):
             bad, det = mol_case(cfg["mol"], scale, thr)
             res.add(states=1, transitions=1, evaluations=det["nao"] ** 4, traces=1)
             nvec.append(det["n_vectors"])
+            res.guard("chunked_cases")
+            if any(l > 0 for l, _ in det["shells"]):
+                res.guard("chunked_with_p_or_d_shells")
+            if any(c > 1 for _, c in det["shells"]):
+                res.guard("chunked_with_general_contraction")
             if bad:
-                res.violation("pyscf_interface.chunked_cholesky:reconstruction-error>threshold",
+                res.violation("pyscf_interface.chunked_cholesky:" + bad,
                               dict(part="mol", mol=cfg["mol"], scale=scale, threshold=thr), det)
-            else:
-                res.guard("chunked_ok")
-                if any(l > 0 for l, _ in det["shells"]):
-                    res.guard("chunked_with_p_or_d_shells")
-                if any(c > 1 for _, c in det["shells"]):
-                    res.guard("chunked_with_general_contraction")
         if nvec[0] < nvec[-1]:
             res.guard("chunked_threshold_changes_vector_count")
         res.nontrivial(("mol", cfg["mol"], scale))
@@ -434,7 +440,6 @@ def job_mol(cfg):
 
 
 # ----------------------------------------------------------------------------- part 4: use inside the sampler
-_SPY = {}
 
 
 def _install_spy():
@@ -605,8 +610,7 @@ def sampler_letter(rig, label, eri, seed, res, case_base, only_tangent=None):
         res.violation("sampler.propagate_phaseless_ad_1:cholesky-of-symmetrised-ERI-not-exact", dict(case, what="exact"),
                       dict(max_err=float(np.nanmax(np.abs(rec - M))), energy=e, n_chol=nchol))
         viol.append("exact")
-    else:
-        res.guard("sampler_exact")
+    res.guard("sampler_cases")
     # derivative through the real sampler
     hmax, h1, h2 = FD_H
     tans = []
@@ -664,15 +668,14 @@ def sampler_letter(rig, label, eri, seed, res, case_base, only_tangent=None):
             res.add(evaluations=2, traces=2)
         rich = (4 * fds[1] - fds[0]) / 3.0
         er = np.abs(drec - rich).max() / scale
+        res.guard("sampler_jvp_compared")
+        if np.abs(rich).max() > 1e-6 * scale:
+            res.guard("sampler_jvp_compared_nonzero")
         if not er <= FD_TOL:
             res.violation("sampler.propagate_phaseless_ad_1:jvp!=central-difference-of-reconstructed-ERI", tcase,
                           dict(err_richardson=float(er), err_h1=float(np.abs(drec - fds[0]).max()), err_h2=float(np.abs(drec - fds[1]).max()),
                                jvp=drec, fd=fds[1]))
             viol.append(tcase["tangent"])
-        else:
-            res.guard("sampler_jvp_compared")
-            if np.abs(drec).max() > 1e-6 * scale:
-                res.guard("sampler_jvp_compared_nonzero")
     return viol
 
 
@@ -689,7 +692,17 @@ def job_sampler(cfg):
         letters = letters[lo:hi]
     rig = SamplerRig(norb, nchol, seed)
     for lab, eri in letters:
-        sampler_letter(rig, lab, eri, seed, res, dict(part="sampler", norb=norb, nchol=nchol, seed=seed, tier=cfg["tier"], mol=cfg.get("mol")))
+        base = dict(part="sampler", norb=norb, nchol=nchol, seed=seed, tier=cfg["tier"], mol=cfg.get("mol"))
+        try:
+            sampler_letter(rig, lab, eri, seed, res, base)
+        except Exception as e:
+            import traceback
+
+            tb = traceback.extract_tb(e.__traceback__)
+            if not any("ad_afqmc" in f.filename for f in tb) or isinstance(e, AssertionError):
+                raise  # a harness problem, not a verdict
+            res.violation("sampler.propagate_phaseless_ad_1:raises", dict(base, letter=lab, what="raises"),
+                          dict(exception=repr(e)[:300], where="%s:%d" % (tb[-1].filename, tb[-1].lineno)))
         res.nontrivial(("sampler", norb, nchol, lab))
     res.sample(dict(routine="sampling.sampler.propagate_phaseless_ad_1 (spy on linalg_utils.modified_cholesky)", norb=norb,
                     n_chol=nchol, eri_letters=[l for l, _ in letters][:8], n_letters=len(letters)))
@@ -754,9 +767,9 @@ def run(ctx):
     # simplest cases first and in-process, so that the first counterexample recorded is the smallest one
     ctx.pmap(job, [dict(part="np", n=n, shard=(0, len(gram_catalogue(n))), seed=seed) for n in (1, 2)], workers=1)
     ctx.pmap(job, jobs)
-    ctx.require_guard("jvp_compared_rank-deficient", "jvp_compared_full-rank", "np_rank1_of_2", "chunked_ok",
+    ctx.require_guard("jvp_compared_rank-deficient", "jvp_compared_full-rank", "np_rank1_of_2", "chunked_cases",
                       "chunked_with_p_or_d_shells", "chunked_with_general_contraction", "chunked_threshold_changes_vector_count",
-                      "sampler_exact", "sampler_jvp_compared_nonzero", "sampler_jvp_finite_unit_tangent")
+                      "sampler_cases", "sampler_jvp_compared_nonzero")
 
 
 def _scal_list(n, seed):
@@ -782,7 +795,8 @@ def replay(case):
              and (case["what"] == "exact" or x["case"].get("tangent") == list(case["tangent"]))]
         return (len(v) > 0, v[0]["detail"] if v else {})
     if part == "mol":
-        return mol_case(case["mol"], case["scale"], case["threshold"])
+        bad, det = mol_case(case["mol"], case["scale"], case["threshold"])
+        return bool(bad), det
     if part == "sampler":
         if case.get("mol"):
             norb, nchol, eri = mol_eri_letter(case["mol"])
@@ -793,8 +807,11 @@ def replay(case):
         rig = SamplerRig(norb, nchol, case["seed"])
         res = Result()
         base = dict(part="sampler", norb=norb, nchol=nchol, seed=case["seed"], tier=case["tier"], mol=case.get("mol"))
-        sampler_letter(rig, case["letter"], eri, case["seed"], res, base,
-                       only_tangent=case.get("tangent") if case["what"] == "jvp" else ["none", []])
+        try:
+            sampler_letter(rig, case["letter"], eri, case["seed"], res, base,
+                           only_tangent=case.get("tangent") if case["what"] == "jvp" else ["none", []])
+        except Exception as e:
+            return (case["what"] == "raises", dict(exception=repr(e)[:300]))
         v = [x for x in res.violations if x["case"].get("what") == case["what"]]
         return (len(v) > 0, v[0]["detail"] if v else {})
     raise ValueError(part)
